@@ -24,13 +24,9 @@ impl GenerationPass for EliminateDeadCodeDirectionsPass {
                 if node.is_return() || node.is_any_entry() || node.might_terminate() {
                     continue;
                 }
-                // If the node has no nexts, remove it from the prevs of all its prevs
-                if node.nexts().is_empty() {
-                    for prev in node.prevs().clone() {
-                        prev.remove_next(node);
-                    }
-                    node.clear_prevs();
-                }
+                // (A node that leads nowhere - a call whose callee ends the
+                // program, the last line of the text - is not dead: only what
+                // nothing leads to is.)
 
                 // If the node has no prevs, remove it from the nexts of all its nexts
                 if node.prevs().is_empty() {
